@@ -66,8 +66,6 @@ def compare(case, io, mo):
                     continue            # the search is too long to be compared with the eagerly evaluated model
                 iq = iq2
                 r = semcheck.compare(sub, {'queries': [iq]}, [mo[k]])
-        if r and SLD_MSG in r and iq.get('findall_outer'):
-            continue
         if r:
             return r
     return None
@@ -245,8 +243,6 @@ def oracle(case, io):
         if a['end'] != 'done' or b['end'] != 'done':
             continue
         x, y = a['answers'], b['answers']
-        if a.get('findall_inner') or b.get('findall_inner'):
-            x, y = semcheck.anon_vars(x), semcheck.anon_vars(y)
         if x != y or a['count'] != b['count']:
             qtxt = ast_io.term_text(['fun', q[0], q[1]]) if q[1] else q[0]
             return ('query %s: %d answers, but %d answers when every findall(T,G,B) is written findall(T,G,L), L = B, every X \\= Y as \\+ X = Y, '
